@@ -73,8 +73,24 @@ impl World {
                 self.dut.send(&payload, *port, *confirmed)
             }
             Op::SetDr(dr) => {
-                self.env.borrow_mut().begin_op(idx, None, None, format!("set_datarate({dr})"));
-                self.dut.set_dr(*dr)
+                // documented domain: an uplink data rate of the region for which the current channel
+                // mask leaves a channel (the application cannot be asked to select an unusable rate)
+                let region = self.env.borrow().cfg.region;
+                let mut usable = crate::refregion::uplink_drs(region).contains(dr);
+                #[cfg(feature = "hooks")]
+                if usable && region.is_fixed() {
+                    if let (Some(s), Some(def)) = (self.dut.snapshot(), crate::refregion::dr_def(region, *dr)) {
+                        let range = if def.bw == 500 { 64..72 } else { 0..64 };
+                        usable = range.into_iter().any(|c| s.mask_bit(c));
+                    }
+                }
+                if usable {
+                    self.env.borrow_mut().begin_op(idx, None, None, format!("set_datarate({dr})"));
+                    self.dut.set_dr(*dr)
+                } else {
+                    self.env.borrow_mut().begin_op(idx, None, None, format!("set_datarate({dr}) skipped: outside the documented domain"));
+                    OpResult::Done
+                }
             }
             Op::SetAdr(on) => {
                 self.env.borrow_mut().begin_op(idx, None, None, format!("set_adr({on})"));
